@@ -449,42 +449,122 @@ theorem api_panicking_calls_register_nothing (ops : List ApiOp) : ∀ (a : Api),
 example : (ApiOp.add 0 [.pfx "/v1", .jwt "short"]).panics = true ∧ (ApiOp.add 0 [.jwtTransition "secret-aaaa" ""]).panics = false := by
   decide
 
-/-! ### `WithCors` (as implemented) -/
+/-! ### the router wrappers: `WithCors` / `WithCorsHeaders` / `WithCustomCors` / `WithFileServer` (as implemented) -/
 
-/-- **witness (as implemented): under `WithCors` an `OPTIONS` request is never dispatched** — the CORS middleware in front
-of the patRouter answers it, whatever routes are registered; every other method goes to the patRouter unchanged, whose
-405 situation is answered by `cors.NotAllowedHandler` (404, no Allow header) unless a later `WithNotAllowedHandler`
-replaced it.  The property's clauses hold for such a server with `OPTIONS` requests excluded and the CORS handler as
-the custom not-allowed handler (`assumptions`). -/
-theorem cors_preflight_never_dispatches (s : Server) (hc : s.cors = true) (m p : String) :
-    s.serveHTTP "OPTIONS" p = .preflight ∧
-    (m ≠ "OPTIONS" → s.serveHTTP m p = .router (s.router.serveHTTP m p)) := by
-  constructor
-  · simp [Server.serveHTTP, hc]
-  · intro hm
-    have : (m == "OPTIONS") = false := by simpa using hm
-    simp [Server.serveHTTP, this]
+/-- **When the patRouter is asked, it is asked the request as it came**: every wrapper either answers itself or passes
+method and path on unchanged. -/
+theorem wrapServe_router (pr : PatRouter) (m p : String) (ws : List Wrapper) (resp : Response)
+    (h : wrapServe pr m p ws = .router resp) : resp = pr.serveHTTP m p := by
+  induction ws with
+  | nil => simp only [wrapServe, SrvResponse.router.injEq] at h; exact h.symm
+  | cons w ws ih =>
+    cases w with
+    | cors =>
+      simp only [wrapServe] at h
+      split at h
+      · cases h
+      · exact ih h
+    | files d ns =>
+      simp only [wrapServe] at h
+      split at h
+      · cases h
+      · exact ih h
 
-theorem no_cors_is_the_router (s : Server) (hc : s.cors = false) (m p : String) :
+/-- a file is served only for a `GET`. -/
+theorem canServe_get {d : String} {ns : List String} {m p f : String} (h : canServe d ns m p = some f) : m = "GET" := by
+  unfold canServe at h
+  split at h
+  · rename_i hc; simp only [Bool.and_eq_true, beq_iff_eq] at hc; exact hc.1.1
+  · cases h
+
+/-- **The CORS middleware answers exactly the `OPTIONS` requests** of a server with a `corsRouter` (any of `WithCors`,
+`WithCorsHeaders`, `WithCustomCors`), wherever it sits among the wrappers (a file server only ever takes `GET`s). -/
+theorem wrapServe_preflight_iff (pr : PatRouter) (m p : String) (ws : List Wrapper) :
+    wrapServe pr m p ws = .preflight ↔ (m = "OPTIONS" ∧ Wrapper.cors ∈ ws) := by
+  induction ws with
+  | nil => simp [wrapServe]
+  | cons w ws ih =>
+    cases w with
+    | cors =>
+      simp only [wrapServe]
+      by_cases hm : m = "OPTIONS"
+      · simp [hm]
+      · have : (m == "OPTIONS") = false := by simpa using hm
+        simp only [this, Bool.false_eq_true, if_false, ih]
+        simp [hm]
+    | files d ns =>
+      simp only [wrapServe]
+      cases hc : canServe d ns m p with
+      | some f =>
+        have hg := canServe_get hc
+        simp only [reduceCtorEq, false_iff, not_and]
+        intro hm; rw [hg] at hm; exact absurd hm (by decide)
+      | none => simp only [ih, List.mem_cons, reduceCtorEq, false_or]
+
+/-- **A file is served exactly when some file server in front can serve it** (a `GET` whose RAW path lies below its
+directory and names one of its files) — then no route is asked, also when a `GET` route matches (as implemented). -/
+theorem wrapServe_file (pr : PatRouter) (m p f : String) (ws : List Wrapper) (h : wrapServe pr m p ws = .file f) :
+    m = "GET" ∧ ∃ d ns, Wrapper.files d ns ∈ ws ∧ canServe d ns m p = some f := by
+  induction ws with
+  | nil => simp [wrapServe] at h
+  | cons w ws ih =>
+    cases w with
+    | cors =>
+      simp only [wrapServe] at h
+      split at h
+      · cases h
+      · obtain ⟨h1, d, ns, hm, hc⟩ := ih h
+        exact ⟨h1, d, ns, List.mem_cons_of_mem _ hm, hc⟩
+    | files d ns =>
+      simp only [wrapServe] at h
+      cases hc : canServe d ns m p with
+      | some f' =>
+        rw [hc] at h
+        simp only [SrvResponse.file.injEq] at h
+        subst h
+        exact ⟨canServe_get hc, d, ns, List.mem_cons_self .., hc⟩
+      | none =>
+        rw [hc] at h
+        obtain ⟨h1, d', ns', hm, hc'⟩ := ih h
+        exact ⟨h1, d', ns', List.mem_cons_of_mem _ hm, hc'⟩
+
+/-- without wrappers the server's router is the patRouter. -/
+theorem no_wrappers_is_the_router (s : Server) (hc : s.wrappers = []) (m p : String) :
     s.serveHTTP m p = .router (s.router.serveHTTP m p) := by
-  simp [Server.serveHTTP, hc]
+  simp [Server.serveHTTP, hc, wrapServe]
+
+/-- **witness (as implemented): under `WithCors` an `OPTIONS` request is never dispatched**, whatever routes are
+registered; every other method is passed on. -/
+theorem cors_preflight_never_dispatches (s : Server) (hc : s.cors = true) (p : String) :
+    s.serveHTTP "OPTIONS" p = .preflight := by
+  unfold Server.serveHTTP
+  rw [wrapServe_preflight_iff]
+  exact ⟨rfl, by simpa [Server.cors] using hc⟩
 
 example : (newServer [.cors]).cors = true ∧ (newServer [.cors]).router.notAllowed = some corsNA ∧
-    (newServer [.cors, .router]).cors = false ∧ (newServer [.cors, .notAllowed (some 8)]).router.notAllowed = some 8 := by decide
+    (newServer [.corsHeaders, .router]).cors = false ∧ (newServer [.customCors, .notAllowed (some 8)]).router.notAllowed = some 8 := by
+  decide
+-- a file shadows a matching GET route; other methods and other names reach the router
+example : wrapServe {} "GET" "/static//a" [.files "/static" ["a"]] = .file "a" ∧
+    wrapServe {} "POST" "/static/a" [.files "/static/" ["a"]] = .router .defaultNotFound ∧
+    wrapServe {} "GET" "/static/a/" [.cors, .files "/static" ["a"]] = .router .defaultNotFound := by decide
 
 /-! ### everything together -/
 
 /-- **rest.Server end to end through its real entry points, for the whole configuration space.**  `NewServer` /
 `MustNewServer` with ANY list of run options (`WithNotFoundHandler`, `WithNotAllowedHandler`, `WithRouter`, `WithChain`,
-`WithCors`, any number, any order), ANY groups with any route options, `Start()` (nested binding loops), then ANY
-request to `server.router.ServeHTTP`: either the CORS middleware answers it — exactly when `WithCors` is in effect and
-the method is `OPTIONS` — or the patRouter answers and the monitor (hence the declarative matcher, over the routes the
-registration rule accepted before its first rejection) accepts the answer. -/
+`WithCors`, `WithCorsHeaders`, `WithCustomCors`, `WithFileServer`; any number, any order), ANY groups with any route
+options, `Start()` (nested binding loops), then ANY request to `server.router.ServeHTTP`: the CORS middleware answers
+it — exactly when a `corsRouter` is in effect and the method is `OPTIONS` —, or a file server in front serves a file
+(a `GET` below its directory that names one of its files), or the patRouter is asked THE SAME method and path and the
+monitor (hence the declarative matcher, over the routes the registration rule accepted before its first rejection)
+accepts its answer. -/
 theorem server_start_serve_is_declarative_matcher (opts : List RunOpt) (groups : List Group) (m p : String) :
     let s := groups.foldl Server.addRoutes (mustNewServer opts)
     let tbl := (bindTable [] s.regs).1
     match s.start.1.serveHTTP m p with
     | .preflight => s.start.1.cors = true ∧ m = "OPTIONS"
+    | .file f => m = "GET" ∧ ∃ d ns, Wrapper.files d ns ∈ s.start.1.wrappers ∧ canServe d ns m p = some f
     | .router resp =>
       resp = s.start.1.router.serveHTTP m p ∧
       monitorObs tbl (oneVarPerPosition tbl) (customOf s.start.1.router) m
@@ -495,12 +575,14 @@ theorem server_start_serve_is_declarative_matcher (opts : List RunOpt) (groups :
   have h4' : monitorObs tbl (oneVarPerPosition tbl) (customOf s.bindRoutes.1.router) m
       (if rooted p then some (cleanToks p) else none) (obsOf (s.bindRoutes.1.router.serveHTTP m p)) = .ok := h4
   rw [← e1] at h4'
-  unfold Server.serveHTTP
-  by_cases hc : (s.start.1.cors && m == "OPTIONS") = true
-  · rw [if_pos hc]
-    simp only [Bool.and_eq_true, beq_iff_eq] at hc
-    exact hc
-  · rw [if_neg hc]
+  cases hr : s.start.1.serveHTTP m p with
+  | preflight =>
+    have := (wrapServe_preflight_iff _ _ _ _).mp hr
+    exact ⟨by simpa [Server.cors] using this.2, this.1⟩
+  | file f => exact wrapServe_file _ _ _ _ _ hr
+  | router resp =>
+    have := wrapServe_router _ _ _ _ _ hr
+    subst this
     exact ⟨rfl, h4'⟩
 
 -- non-vacuity: WithCors + an OPTIONS route: the preflight branch; a GET route: the router branch
